@@ -37,6 +37,13 @@ def groupCases (ls : List String) : List Case :=
         | none => go rest none acc
   go ls none []
 
+
+/-- frameworks are dumped by the harness from the implementation's own counters: a count that cannot
+be a real framework (e.g. a wrapped-around `usize`) must not reach the model's enumerations -/
+def saneN (rest : List String) : Option Nat :=
+  let n := natOf (kvGetD rest "n" "0")
+  if n ≤ 1000000 then some n else none
+
 /-! ### store family -/
 
 def storeDump (s : Store) (univ : List Nat) : String :=
@@ -133,8 +140,9 @@ def runSolve (c : Case) : List String := Id.run do
     let ts := toks l
     match ts with
     | "fw" :: rest =>
-      af := ⟨natOf (kvGetD rest "n" "0"), attList (kvGetD rest "atts" "")⟩
-      if !af.wfB then out := "verdict BAD framework dump is not well-formed" :: out
+      af := ⟨(saneN rest).getD 0, attList (kvGetD rest "atts" "")⟩
+      if (saneN rest).isNone then out := "verdict BAD framework dump reports an impossible number of arguments" :: out
+      else if !af.wfB then out := "verdict BAD framework dump is not well-formed" :: out
       else if af.n ≤ 9 then
         let cs := (allComps af.view).filterMap id
         let parts := cs.map (fun c =>
@@ -182,7 +190,8 @@ def runMulti (c : Case) : List String := Id.run do
     let ts := toks l
     match ts with
     | "fw" :: rest =>
-      let a : AF := ⟨natOf (kvGetD rest "n" "0"), attList (kvGetD rest "atts" "")⟩
+      let a : AF := ⟨(saneN rest).getD 0, attList (kvGetD rest "atts" "")⟩
+      if (saneN rest).isNone then out := "verdict BAD framework dump reports an impossible number of arguments" :: out
       labels := natList (kvGetD rest "labels" "-")
       if a.wfB && a.n ≤ 9 then af := some a
     | ["r", i, sem, task, arg, res, _] | ["r", i, sem, task, arg, res] =>
@@ -236,7 +245,8 @@ def runDyn (c : Case) : List String := Id.run do
       qi := qi + 1
       q := some ⟨σ, if what.startsWith "dc" then .DC else .DS, what.endsWith "1", [natOf lab]⟩
     | "fw" :: rest =>
-      af := ⟨natOf (kvGetD rest "n" "0"), attList (kvGetD rest "atts" "")⟩
+      af := ⟨(saneN rest).getD 0, attList (kvGetD rest "atts" "")⟩
+      if (saneN rest).isNone then out := s!"verdict BAD {qi} framework dump reports an impossible number of arguments (wrapped counter)" :: out
       labels := natList (kvGetD rest "labels" "-")
     | "ans" :: _ :: rest =>
       match q with
